@@ -56,7 +56,7 @@ var rewrites = map[string]map[string]string{
 		"Rename": "Rename", "Remove": "Remove", "RemoveAll": "RemoveAll", "Mkdir": "Mkdir",
 		"MkdirAll": "MkdirAll", "ReadDir": "ReadDir", "Chmod": "Chmod", "Truncate": "Truncate",
 		"Open": "Open", "Create": "Create", "OpenFile": "OpenFile", "CreateTemp": "CreateTemp",
-		"MkdirTemp": "MkdirTemp", "Args": "Args()", "File": "File", "Symlink": "Symlink", "Readlink": "Readlink", "Link": "Link", "SameFile": "SameFile",
+		"MkdirTemp": "MkdirTemp", "Args": "Args()", "File": "File", "Symlink": "Symlink", "Readlink": "Readlink", "Link": "Link", "SameFile": "SameFile", "UserCacheDir": "UserCacheDir", "UserConfigDir": "UserConfigDir",
 	},
 	"path/filepath": {"Abs": "Abs", "EvalSymlinks": "EvalSymlinks"},
 	"os/exec":       {"LookPath": "LookPath"},
@@ -78,7 +78,7 @@ var keepalive = map[string]string{
 
 // selectors that touch the environment but have no seam: reported.
 var unsim = map[string][]string{
-	"os":            {"Chown", "Lchown", "Chtimes", "DirFS", "CopyFS", "StartProcess", "Pipe", "NewFile", "FindProcess", "Getppid", "Getuid", "Setenv", "Unsetenv", "Clearenv", "UserCacheDir", "UserConfigDir", "ReadLink"},
+	"os":            {"Chown", "Lchown", "Chtimes", "DirFS", "CopyFS", "StartProcess", "Pipe", "NewFile", "FindProcess", "Getppid", "Getuid", "Setenv", "Unsetenv", "Clearenv", "ReadLink"},
 	"path/filepath": {"Walk", "WalkDir", "Glob"},
 	"time":          {"Sleep", "After", "Tick", "NewTimer", "NewTicker", "AfterFunc", "Until"},
 	"reflect":       {"MapRange", "MapKeys"},
